@@ -26,7 +26,8 @@ func (Prop) Configs(tier string) []string {
 }
 func (Prop) SelfTest() error { return refSelfTest() }
 func (Prop) Rule() string {
-	return "E2 full products on sm2ec.P256() (elliptic.Curve + CombinedMult + Inverse), ecdh.P256() and sm2 constructors against affine math/big arithmetic on y^2=x^3-3x+b mod p " +
+	return "Internal point API (internal/sm2ec.SM2P256Point through the verifhook overlay): 25 point expressions covering every representation the API can produce (canonical infinity, the infinity returned by scalar multiplication with k = 0 mod n, P+(-P), decoded, compressed-decoded, scalar-mult results, sums, doubles) as first and second operand of Add (all ordered pairs, receiver aliased to either operand, operands left intact, sums and doubles fed back one more level), Double, ScalarMult with 9 scalars, Set and the three encoders. " +
+		"E2 full products on sm2ec.P256() (elliptic.Curve + CombinedMult + Inverse), ecdh.P256() and sm2 constructors against affine math/big arithmetic on y^2=x^3-3x+b mod p " +
 		"(ecref.Add/Neg only; [k]P = sum of [2^j]P over the bits of the UNREDUCED k, cross-checked against ecref.Mul in SelfTest). " +
 		"Scalar alphabet (values up to 2^328, fed as byte strings of length 0..40: minimal, zero-padded to 32/33/40, and every length for the edge family): 0..70, n-3..n+3, 2n-1..2n+1, 3n, n*2^64+-1, " +
 		"2^k and 2^k+-1 for k=0..264, every 7-bit Booth-6 window value at each of the 43 window positions the code really uses (bits 6i-1..6i+5; asm and purego both use boothW6 in this tree), " +
@@ -97,6 +98,8 @@ func (Prop) Run(c *engine.Ctx) {
 		t.Nontrivial("params")
 		t.Sample(map[string]any{"scalars": len(scalars), "points": len(pts)})
 	})
+
+	runInternal(c)
 
 	// ---- Add / Double ---------------------------------------------------------------------------------
 	for _, p := range pts {
